@@ -333,13 +333,28 @@ def k7_fragments(ctx, pid: str, which=("K7", "K8", "K9", "K10")):
 
         emit(ctx, run_paths(ctx, raw, make_args, facts, hooks=FRAG_HOOKS, post=post), raw.where())
 
+    # the base classes, and every class of the kits that resolves the method to another implementation (an override in a
+    # kit module is analysed like the base implementation)
+    def owners(base, meth):
+        out, seen = [base], {id(p.class_attr_def(base, meth)[1])}
+        for kc in ctx.inventory:
+            if p.is_subclass(kc.ci, base):
+                raw = p.class_attr_def(kc.ci, meth)[1]
+                if isinstance(raw, FuncInfo) and id(raw) not in seen:
+                    seen.add(id(raw))
+                    out.append(kc.ci)
+        return out
+
     if "K7" in which:
-        check_fragment("K7", mod_cls, "target_sequence", lambda I: I.circular_interval("W:x", N, S1, S3))
+        for ci in owners(mod_cls, "target_sequence"):
+            check_fragment("K7", ci, "target_sequence", lambda I: I.circular_interval("W:x", N, S1, S3))
     if "K8" in which:
-        check_fragment("K8", vec_cls, "target_sequence", lambda I: I.circular_interval("W:x", N, S3, S1 + N))
+        for ci in owners(vec_cls, "target_sequence"):
+            check_fragment("K8", ci, "target_sequence", lambda I: I.circular_interval("W:x", N, S3, S1 + N))
     if "K9" in which:
-        check_fragment("K9", vec_cls, "placeholder_sequence", lambda I: I.circular_interval("W:x", N, S1, S3),
-                       want_source=False)
+        for ci in owners(vec_cls, "placeholder_sequence"):
+            check_fragment("K9", ci, "placeholder_sequence", lambda I: I.circular_interval("W:x", N, S1, S3),
+                           want_source=False)
     if "K10" in which:
         k10_accessors(ctx, pid)
 
@@ -380,8 +395,19 @@ def k10_accessors(ctx, pid: str):
         ("moclo.core.vectors.AbstractVector", "overhang_start", 3),
         ("moclo.core.vectors.AbstractVector", "overhang_end", 1),
     )
+    full = []
     for cname, meth, g in table:
-        ci = p.get_class(cname)
+        base = p.get_class(cname)
+        full.append((base, meth, g))
+        seen = {id(p.class_attr_def(base, meth)[1])}
+        for kc in ctx.inventory:
+            if p.is_subclass(kc.ci, base):
+                raw = p.class_attr_def(kc.ci, meth)[1]
+                if isinstance(raw, FuncInfo) and id(raw) not in seen:
+                    seen.add(id(raw))
+                    full.append((kc.ci, meth, g))
+    for ci, meth, g in full:
+        cname = ci.qualname
         owner, raw = p.class_attr_def(ci, meth)
         if not isinstance(raw, FuncInfo):
             raise AnalysisError("anchor vanished: %s.%s" % (cname, meth))
